@@ -41,6 +41,9 @@ CORPUS = [
     ("R8", "fn main() { let p = 10 - 2 ** 2; let q = 7 / 2 * 2; let r = 9 % 4 * 3; let s = 2 + 3 * 4 - 1; println(p, q, r, s); let a = 10; let b = 3; let t = a - b ** 2; let u = a / b * b; let v = a - (b + 1); let w = 1.5 - 2.25 + 3.0; println(t, u, v, w); }"),
     ("R9", "fn g() { return; } fn main() { g(); let i = 0; while i < 4 { i += 1; match i { 2 => { continue; }, _ => { if i == 3 { break; } } }; println(i); } println(\"end\", i); }"),
     ("R9", "import { trigger minute } from triggers;\nevent fn cb(_e: int) { println(\"cb\"); }\nfn main() { trigger cb on minute(5); for k in 0..3 { match k { _ => { break; } }; } println(\"t\"); }"),
+    # loop control in a NON-default arm, none in the default arm: the guard must look at every arm
+    ("R9", "fn main() { let n = 0; for k in 0..6 { n += 1; match k { 1 => { continue; }, 4 => { break; }, _ => { println(\"d\", k); } }; println(\"after\", k); } println(n); let i = 0; while i < 6 { i += 1; match i { 2 => { continue; }, 5 => { break; }, _ => {} }; println(\"w\", i); } println(i); }"),
+    ("R9", "fn main() { let s = 0; loop { s += 1; match s { 3 => { break; }, _ => { s += 1; } }; println(s); if s > 20 { break; } } println(\"end\", s); for q in 0..4 { match q { 0 | 2 => { continue; }, _ => { println(q); } }; println(\"x\", q); } }"),
     ("R10", "fn main() { let x: ?int = none; let o = new { ? }; o.set(\"k\", 1); println(x, o); let n = null; if x == none { println(\"none\"); } }"),
     ("R14", "fn tag() -> str { return \"x\"; } fn two(k: int) -> int { if k > 0 { return 1; } return 2; } fn lp() -> int { loop { return 3; } } fn main() { println(tag(), two(0), two(1), lp()); }"),
     ("R14", "fn f(k: int) -> int { let i = 0; loop { i += 1; if i > k { return i; } continue; } } fn main() { type T = int; let t: T = 1; println(f(2), t); loop { let x = if true { break; } else { 1 }; println(x); } }"),
